@@ -42,6 +42,9 @@ pub struct Profile {
     pub positionless_pm: u64,
     pub repeat_steps: bool,
     pub many_features_pm: u64,
+    pub twin_features_pm: u64,
+    /// Runner-world plans executed through the `Cucumber` pipeline (world P); 0 for the other worlds.
+    pub pipeline_pm: u64,
 }
 
 impl Profile {
@@ -68,6 +71,8 @@ impl Profile {
             positionless_pm: 60,
             repeat_steps: true,
             many_features_pm: 15,
+            twin_features_pm: 40,
+            pipeline_pm: 0,
         }
     }
 
@@ -121,12 +126,14 @@ impl Profile {
             }
             "C11" | "C12" | "C13" => {
                 p.many_features_pm = 80;
+                p.twin_features_pm = 80;
                 p.dup_names_pm = 120;
                 p.positionless_pm = 120;
                 p.repeat_steps = true;
             }
             "C14" => {
                 p.many_features_pm = 50;
+                p.twin_features_pm = 80;
                 p.dup_names_pm = 120;
                 p.positionless_pm = 120;
                 p.repeat_steps = true;
@@ -143,6 +150,9 @@ impl Profile {
                 p.lazy_parser_pm = 200;
             }
             _ => {}
+        }
+        if matches!(prop, "C02" | "C03" | "C04" | "C05" | "C06" | "C07" | "C08" | "C09" | "C10") {
+            p.pipeline_pm = 250;
         }
         p
     }
@@ -185,6 +195,12 @@ fn gen_scenario(c: &mut Ctx<'_>, id: &str, max_steps: usize, serial: bool, retry
     let mut steps = gen_steps(c, id, n);
     if c.repeat_steps && n >= 2 && c.r.chance(1, 3) {
         steps[0] = steps[n - 1].clone();
+        if c.r.chance(1, 2) {
+            // the same text under another keyword, defined differently there (definitions live per keyword)
+            let other: Vec<Kw> = [Kw::Given, Kw::When, Kw::Then].into_iter().filter(|k| *k != steps[0].kw).collect();
+            steps[0].kw = *c.r.pick(&other);
+            steps[0].def = *c.r.pick(&[Def::None, Def::One, Def::Two]);
+        }
     }
     let mut tags = Vec::new();
     if serial {
@@ -304,7 +320,19 @@ pub fn gen_plan(seed: u64, prof: &Profile) -> Plan {
                 })
                 .collect()
         };
-        let scenarios = mk_scs(&mut c, &fid, per[0]);
+        let mut scenarios = mk_scs(&mut c, &fid, per[0]);
+        // the same step text in two scenarios, under different keywords and defined differently there
+        if c.repeat_steps && scenarios.len() >= 2 && c.r.chance(1, 2) {
+            let (a, b) = if c.r.chance(1, 2) { (0, 1) } else { (1, 0) };
+            if scenarios[a].examples.is_none() && scenarios[b].examples.is_none() && !scenarios[a].steps.is_empty() && !scenarios[b].steps.is_empty() {
+                let mut st = scenarios[a].steps[scenarios[a].steps.len() - 1].clone();
+                let other: Vec<Kw> = [Kw::Given, Kw::When, Kw::Then].into_iter().filter(|k| *k != st.kw).collect();
+                st.kw = *c.r.pick(&other);
+                let defs: Vec<Def> = [Def::None, Def::One, Def::Two].into_iter().filter(|d| *d != st.def).collect();
+                st.def = *c.r.pick(&defs);
+                scenarios[b].steps[0] = st;
+            }
+        }
         let mut rules = Vec::new();
         for ri in 0..n_rules {
             let rid = format!("{fid}r{ri}");
@@ -341,6 +369,34 @@ pub fn gen_plan(seed: u64, prof: &Profile) -> Plan {
         features.push(FeatureSpec { name: fname, path, tags: ftags, background, scenarios, rules, positionless });
     }
     drop(c);
+    // one definition kind per (keyword, text): step definitions are registered per keyword and text,
+    // so two steps sharing both cannot be defined differently
+    {
+        let mut kinds: BTreeMap<(String, String), Def> = BTreeMap::new();
+        let mut fix = |st: &mut StepSpec| {
+            let k = (st.kw.as_str().to_owned(), st.text.clone());
+            st.def = *kinds.entry(k).or_insert(st.def);
+        };
+        for f in &mut features {
+            f.background.iter_mut().for_each(&mut fix);
+            for sc in &mut f.scenarios {
+                sc.steps.iter_mut().for_each(&mut fix);
+            }
+            for ru in &mut f.rules {
+                ru.background.iter_mut().for_each(&mut fix);
+                for sc in &mut ru.scenarios {
+                    sc.steps.iter_mut().for_each(&mut fix);
+                }
+            }
+        }
+    }
+    // the same feature handed over twice (a parser repeating a file for soak runs): two values that are
+    // equal in every field - only the identity of the `Source` tells them apart
+    if !wide && !features.is_empty() && r.chance(prof.twin_features_pm, 1000) {
+        let k = r.below(features.len() as u64) as usize;
+        let twin = features[k].clone();
+        features.push(twin);
+    }
 
     // ---- parser items
     let mut items: Vec<ParserItem> = Vec::new();
@@ -570,6 +626,30 @@ pub fn gen_plan(seed: u64, prof: &Profile) -> Plan {
         fresh_wakers: noise && r.chance(1, 4),
     };
 
+    // a quarter of the runner-world plans go through the `Cucumber` builder and `filter_run` (world P);
+    // some plans come with a filter that rejects every scenario of one rule
+    let pipeline = r.chance(prof.pipeline_pm, 1000);
+    let mut filtered_rules = Vec::new();
+    if prof.pipeline_pm > 0 && !dup_names && r.chance(1, 6) {
+        let with_rules: Vec<usize> = (0..features.len()).filter(|i| !features[*i].rules.is_empty()).collect();
+        if !with_rules.is_empty() {
+            let fi = *r.pick(&with_rules);
+            // (a twin of that feature, if any, is filtered alike: the closure sees names)
+            let ri = r.below(features[fi].rules.len() as u64) as usize;
+            for (j, f) in features.iter().enumerate() {
+                if f.name == features[fi].name && f.rules.len() > ri && f.rules[ri].name == features[fi].rules[ri].name {
+                    filtered_rules.push((j, ri));
+                }
+            }
+        }
+    }
+
+    let tracing_targets_only = prof.tracing && r.chance(1, 8);
+    let mut cfg = cfg;
+    if tracing_targets_only {
+        cfg.cli_concurrency = Some(1);
+    }
+
     Plan {
         seed,
         features,
@@ -581,5 +661,8 @@ pub fn gen_plan(seed: u64, prof: &Profile) -> Plan {
         sched,
         writer: WriterCfg::default(),
         tracing: prof.tracing,
+        pipeline,
+        filtered_rules,
+        tracing_targets_only,
     }
 }
